@@ -436,4 +436,161 @@ theorem C17_finding_custom_seqnum :
     Out.wire { mtype := .app 68, seq := 3, snd := 1, tgt := 2, pid := some 9, admin := false } ∈ r.2 := by
   refine ⟨by decide, by decide, by decide⟩
 
+/-! ### extended events (`Sess.stepX`): application retransmissions alone and inside batches, failing socket writes -/
+
+private theorem binv_buf (s : Sess) (b : List Msg) (h : BInv s) : BInv { s with buf := b } :=
+  ⟨h.started, h.active, h.store, h.one, h.ok, h.code⟩
+
+/-- a mixed batch: every NEW frame written (buffered or last) is stored, provided the new ones in the buffer were -/
+theorem batchX_stored : ∀ (els : List BEl) (s : Sess), els ≠ [] → BInv s →
+    (∀ f ∈ s.buf, f.possDup = none → ∃ st, s.store = some st ∧ lookup st.msgs f.seq = some (Rec.frame f)) →
+    BInv (sendBatchX s els).1 ∧ Grows s (sendBatchX s els).1 ∧ (sendBatchX s els).1.buf = [] ∧
+    ∀ m, Out.wire m ∈ (sendBatchX s els).2 → m.possDup = none →
+      ∃ st, (sendBatchX s els).1.store = some st ∧ lookup st.msgs m.seq = some (Rec.frame m)
+  | [], _, h, _, _ => absurd rfl h
+  | [.new p], s, _, hi, hbuf => by
+    obtain ⟨st, b, hst, hctrl⟩ := hi.store
+    obtain ⟨e1, e2, e3, e4⟩ := order_send s p true st b hst hctrl hi.one hi.ok hi.code
+    obtain ⟨i1, i2, st', hs', hl'⟩ := binv_after s p true hi
+    simp only [sendBatchX, sndOf]
+    refine ⟨i1, i2, by rw [e3]; rfl, fun m hm hnd => ?_⟩
+    rw [e4, if_pos rfl, List.mem_map] at hm
+    obtain ⟨f, hf, hfe⟩ := hm
+    have hfm : f = m := by injection hfe
+    subst hfm
+    rcases List.mem_append.mp hf with hf | hf
+    · obtain ⟨st0, hs0, hl0⟩ := hbuf f hf hnd
+      obtain ⟨st1, hs1, g⟩ := i2 st0 hs0
+      exact ⟨st1, hs1, g _ _ hl0⟩
+    · rw [List.mem_singleton] at hf; subst hf
+      exact ⟨st', hs', hl'⟩
+  | [.dup p k], s, _, hi, hbuf => by
+    obtain ⟨e1, e2⟩ := sendProcess_dup s p k true
+    simp only [sendBatchX]
+    rw [e1, e2]
+    refine ⟨binv_buf s _ hi, Grows.refl s, rfl, fun m hm hnd => ?_⟩
+    rw [if_pos rfl, List.mem_map] at hm
+    obtain ⟨f, hf, hfe⟩ := hm
+    have hfm : f = m := by injection hfe
+    subst hfm
+    rcases List.mem_append.mp hf with hf | hf
+    · exact hbuf f hf hnd
+    · rw [List.mem_singleton] at hf; subst hf
+      exact absurd hnd (fwdFrame_dup s p k)
+  | .new p :: q :: rest, s, _, hi, hbuf => by
+    obtain ⟨st, b, hst, hctrl⟩ := hi.store
+    obtain ⟨e1, e2, e3, e4⟩ := order_send s p false st b hst hctrl hi.one hi.ok hi.code
+    obtain ⟨i1, i2, st', hs', hl'⟩ := binv_after s p false hi
+    have hbuf' : ∀ f ∈ (sendProcess s { m := mkOrder s p, eob := false }).1.buf, f.possDup = none →
+        ∃ st, (sendProcess s { m := mkOrder s p, eob := false }).1.store = some st ∧ lookup st.msgs f.seq = some (Rec.frame f) := by
+      intro f hf hnd
+      rw [e3] at hf
+      simp only [Bool.false_eq_true, if_false, List.mem_append, List.mem_singleton] at hf
+      rcases hf with hf | hf
+      · obtain ⟨st0, hs0, hl0⟩ := hbuf f hf hnd
+        obtain ⟨st1, hs1, g⟩ := i2 st0 hs0
+        exact ⟨st1, hs1, g _ _ hl0⟩
+      · subst hf; exact ⟨st', hs', hl'⟩
+    obtain ⟨j1, j2, j3, j4⟩ := batchX_stored (q :: rest) _ (by simp) i1 hbuf'
+    simp only [sendBatchX, sndOf]
+    refine ⟨j1, i2.trans j2, j3, fun m hm hnd => ?_⟩
+    rw [e4] at hm
+    simp only [Bool.false_eq_true, if_false, List.nil_append] at hm
+    exact j4 m hm hnd
+  | .dup p k :: q :: rest, s, _, hi, hbuf => by
+    obtain ⟨e1, e2⟩ := sendProcess_dup s p k false
+    have hbuf' : ∀ f ∈ ({ s with buf := s.buf ++ [fwdFrame s p k] } : Sess).buf, f.possDup = none →
+        ∃ st, ({ s with buf := s.buf ++ [fwdFrame s p k] } : Sess).store = some st ∧ lookup st.msgs f.seq = some (Rec.frame f) := by
+      intro f hf hnd
+      simp only [List.mem_append, List.mem_singleton] at hf
+      rcases hf with hf | hf
+      · exact hbuf f hf hnd
+      · subst hf; exact absurd hnd (fwdFrame_dup s p k)
+    obtain ⟨j1, j2, j3, j4⟩ := batchX_stored (q :: rest) { s with buf := s.buf ++ [fwdFrame s p k] } (by simp) (binv_buf s _ hi) hbuf'
+    simp only [sendBatchX]
+    rw [e1, e2]
+    simp only [Bool.false_eq_true, if_false, List.nil_append]
+    exact ⟨j1, (fun st hst => j2 st hst), j3, j4⟩
+
+/-- **C17, one extended step** -/
+theorem C17X_step (s : Sess) (ev : EvX) (hi : Inv s) (hp : PlainEvX ev) :
+    Inv (s.stepX ev).1 ∧ Grows s (s.stepX ev).1 ∧
+    ∀ m, Out.wire m ∈ (s.stepX ev).2 → m.possDup = none → m.admin = false → StoredAt (s.stepX ev).1 m := by
+  have idle : Inv s ∧ Grows s s ∧ ∀ m, Out.wire m ∈ ([] : List Session.Out) → m.possDup = none → m.admin = false → StoredAt s m :=
+    ⟨hi, Grows.refl s, fun m hm => by cases hm⟩
+  cases ev with
+  | base e => exact C17_step s e hi hp
+  | wfail p => exact idle
+  | fwd p k =>
+    simp only [Sess.stepX]
+    split
+    · obtain ⟨hg, hok, h1, hcode⟩ := hi
+      obtain ⟨hb, hs, hrest⟩ := hg
+      obtain ⟨e1, e2⟩ := sendProcess_dup s p k true
+      rw [e1, e2]
+      refine ⟨⟨⟨rfl, hs, hrest⟩, hok, h1, hcode⟩, fun st hst => ⟨st, hst, fun _ _ h => h⟩, fun m hm hnd _ => ?_⟩
+      rw [if_pos rfl, hb] at hm
+      simp at hm
+      subst hm
+      exact absurd hnd (fwdFrame_dup s p k)
+    · exact idle
+  | dbatch els =>
+    simp only [Sess.stepX]
+    split
+    · rename_i hact2
+      cases els with
+      | nil => exact idle
+      | cons e es =>
+        obtain ⟨g', k, n1, n2, _⟩ := C16X_step s (.dbatch (e :: es)) hi.1 trivial
+        have he : s.stepX (.dbatch (e :: es)) = sendBatchX s (e :: es) := by simp [Sess.stepX, hact2]
+        rw [he] at g' n2
+        obtain ⟨hg, hok, h1, hcode⟩ := hi
+        obtain ⟨hb, hs, st, a, b, hst, hctrl, hact⟩ := hg
+        have hns : a = s.ns := hact hact2.2
+        subst hns
+        have hcs : ctrlS s = s.ns := by simp [ctrlS, hst, hctrl]
+        have hbi : BInv s := ⟨hs, hact2.2, ⟨st, b, hst, hctrl⟩, by omega, hok, hcode⟩
+        obtain ⟨j1, j2, j3, j4⟩ := batchX_stored (e :: es) s (by simp) hbi (by rw [hb]; intro f hf; cases hf)
+        refine ⟨⟨g', j1.ok, by omega, j1.code⟩, j2, fun m hm hnd _ => ?_⟩
+        obtain ⟨st', hs', hl'⟩ := j4 m hm hnd
+        obtain ⟨a1, _, _⟩ := j1.ok st' hs' _ _ hl'
+        exact ⟨st', hs', by rw [lookup_get _ _ a1]; exact hl'⟩
+    · exact idle
+
+/-- **C17 over extended histories** -/
+theorem C17X_run (h : List EvX) : ∀ (s : Sess), Inv s → (∀ ev ∈ h, PlainEvX ev) →
+    Inv (s.runX h).1 ∧ Grows s (s.runX h).1 ∧
+    ∀ m, Out.wire m ∈ (s.runX h).2 → m.possDup = none → m.admin = false → StoredAt (s.runX h).1 m := by
+  induction h with
+  | nil => intro s hi _; exact ⟨hi, Grows.refl s, fun m hm => by cases hm⟩
+  | cons ev rest ih =>
+    intro s hi hp
+    obtain ⟨i1, g1, s1⟩ := C17X_step s ev hi (hp ev List.mem_cons_self)
+    obtain ⟨i2, g2, s2⟩ := ih _ i1 (fun e he => hp e (List.mem_cons_of_mem _ he))
+    simp only [Sess.runX]
+    refine ⟨i2, g1.trans g2, fun m hm h2 h3 => ?_⟩
+    rcases List.mem_append.mp hm with hm | hm
+    · exact (s1 m hm h2 h3).grows g2
+    · exact s2 m hm h2 h3
+
+/-- **C17, extended histories**: after the first start over a fresh persister and ANY history that also contains application
+retransmissions (alone, inside and at the tail of batches) and failed socket writes, every new application message that
+went on the wire is read back from the persister under its MsgSeqNum exactly as written – in particular a failed write
+leaves nothing behind that a later message with the same number could collide with. -/
+theorem C17X_stored (cfg : Cfg) (ss rs : Nat) (rest : List EvX) (hp : ∀ ev ∈ rest, PlainEvX ev) (m : Msg)
+    (hm : Out.wire m ∈ ((((Sess.init cfg Code.fixed true).step (.start ss rs)).1).runX rest).2)
+    (hnew : m.possDup = none) (happ : m.admin = false) :
+    StoredAt ((((Sess.init cfg Code.fixed true).step (.start ss rs)).1).runX rest).1 m :=
+  (C17X_run rest _ (first_inv cfg ss rs) hp).2.2 m hm hnew happ
+
+/-- and everything the store holds after such a history is a new application frame under its own MsgSeqNum -/
+theorem C17X_only_application (cfg : Cfg) (ss rs : Nat) (rest : List EvX) (hp : ∀ ev ∈ rest, PlainEvX ev)
+    (st : SpecG Rec) (hst : ((((Sess.init cfg Code.fixed true).step (.start ss rs)).1).runX rest).1.store = some st) (k : Nat) (r : Rec)
+    (hk : st.get k = some r) : ∃ m, r = Rec.frame m ∧ m.seq = k ∧ m.admin = false ∧ m.possDup = none := by
+  obtain ⟨i, _, _⟩ := C17X_run rest _ (first_inv cfg ss rs) hp
+  unfold SpecG.get at hk
+  split at hk
+  · cases hk
+  · exact (i.2.1 st hst k r hk).2.2
+
 end Fix8Model.Props.C17
